@@ -155,14 +155,26 @@ Section S2.
     - (* first attempt *)
       pose proof (p1_send_sends _ _ _ _ _ _ _ _ Hp) as Hts. pose proof (tok_sends_quiets _ _ Hts) as Hqt.
       assert (Hok0 : all_ok (evS2 E) (EStart id q :: history st) = true) by (cbn [all_ok]; now rewrite Hok).
+      assert (Hmono0 : forall hs hx, history st = hs ++ hx -> hx <> [] ->
+                                     e_clock E hx <= e_clock E (EStart id q :: history st)).
+      { apply Hm0. rewrite Hhist. exists (ESend id (MReg (q_host q) a) rsp :: toks). cbn [app]. now rewrite <- app_assoc. }
+      (* a first attempt that carries no bearer token: nothing usable was cached *)
+      assert (Hcv : match a with
+                    | ABearer _ => True
+                    | _ => cached_valid E (q_host q) (q_required q) (e_clock E (EStart id q :: history st)) None (history st) = false
+                    end).
+      { destruct Hp as [tok Ha | Ha | www u p Ha Hw Hb Hbs | www toks sc2 w r1 Ha Hb Hrf Hblk Hne]; try exact I.
+        - destruct (q_auth q); try exact I;
+            (eapply no_cached with (st' := st'); eauto; apply incl_refl).
+        - eapply no_cached with (st' := st'); eauto. apply incl_refl. }
       cbn [app all_ok]. rewrite <- app_assoc. cbn [app]. apply andb_true_iff. split.
-      + cbn [evS2]. rewrite before_phase_quiets by exact Hqt. cbn [before_phase is_marker]. now rewrite Nat.eqb_refl.
+      + cbn [evS2]. rewrite before_phase_quiets by exact Hqt. cbn [before_phase is_marker]. rewrite Nat.eqb_refl.
+        cbn [is_tok_msg]. destruct a; try (rewrite Hcv; reflexivity).
+        destruct (cached_valid _ _ _ _ _ _); reflexivity.
       + destruct Hp as [tok Ha | Ha | www u p Ha Hw Hb Hbs | www toks sc2 w r1 Ha Hb Hrf Hblk Hne]; try exact Hok0.
         apply all_ok_toks_start; [exact Hts | | exact Hok0].
         eapply no_cached with (st' := st') (r1 := r1); eauto.
-        * apply Hm0. rewrite Hhist. exists (ESend id (MReg (q_host q) (ABearer (tok_of w))) rsp :: toks).
-          cbn [app]. now rewrite <- app_assoc.
-        * exact (blk_incl _ _ _ _ _ _ _ _ _ _ _ _ Hblk).
+        exact (blk_incl _ _ _ _ _ _ _ _ _ _ _ _ Hblk).
     - pose proof (blk_sends _ _ _ _ _ _ _ _ _ _ _ _ Hblk) as Hts.
       assert (Hok0 : all_ok (evS2 E) (EStart id q :: history st) = true) by (cbn [all_ok]; now rewrite Hok).
       cbn [app all_ok]. rewrite <- !app_assoc. cbn [app]. apply andb_true_iff. split; [reflexivity|].
